@@ -54,10 +54,29 @@ def C(init, cache=1, maxjobs=UNL, rstat=(), rhost=(), fail=()):
 
 OLD3 = [R("COMPLETE", 9, 9), R("FAILED", 9, 9), AV]
 OLD4 = [R("COMPLETE", 9, 9), R("FAILED", 8, 8), R("ASSIGNED", 8, 0), AV]
+# a FINISHED earlier run: no AVAILABLE job at start-up, only a restart pattern can re-open anything
+DONE3 = [R("COMPLETE", 9, 9), R("FAILED", 9, 9), R("ASSIGNED", 8, 0)]
+DONE2F = [R("FAILED", 9, 9), R("FAILED", 8, 8)]
+DONE_PATTERNS = [dict(rstat=["FAILED"]), dict(rhost=[9]), dict(rhost=[8]), dict(rstat=["FAILED"], rhost=[8]),
+                 dict(rhost=[7]), dict()]           # stat, host, host, both, matches nothing, no pattern
+
+
+def finished_cfg(rnd, extra=0):
+    init = rnd.choice([DONE3, DONE3, DONE2F]) + [R("COMPLETE", 9, 9)] * extra
+    return C(init, cache=rnd.choice([1, 2]), maxjobs=rnd.choice([UNL, UNL, 1]), **rnd.choice(DONE_PATTERNS))
+
+
+def restart_only(cfg):
+    """no AVAILABLE job at start-up and a pattern that names at least one job (used for the vacuity guard only)"""
+    return (all(r["st"] != "AVAILABLE" for r in cfg["init"]) and
+            any(r["st"] in cfg["rstat"] or r["host"] in cfg["rhost"] for r in cfg["init"]))
 
 
 def random_cfg(rnd, maxn=4):
     k = rnd.random()
+    if k < 0.15:
+        return finished_cfg(rnd)
+    k = (k - 0.15) / 0.85
     if k < 0.55:
         n = rnd.randint(1, maxn)
         return C([AV] * n, cache=rnd.choice([1, 1, 2, 3]), maxjobs=rnd.choice([UNL, UNL, 1, 2]),
@@ -306,6 +325,7 @@ def validate_traces(ctx, runs, np_, nt, lockmode, label):
 def _run(ctx, exe, pool, quick, rnd):
     T0 = ctx.t0
     judge = Judge(ctx)
+    guard = {"replay": 0, "random": 0, "free": 0}    # executions that start without AVAILABLE jobs but with a matching pattern
 
     # ---- 1. design level: exhaustive TLC, LockMode = "exclusive" (what the code asks for) ----------------------
     if quick:
@@ -382,7 +402,8 @@ def _run(ctx, exe, pool, quick, rnd):
             seen[(canon(r["c"]), canon(r["sched"]))] = r
         lst = sorted(seen.values(), key=lambda r: (canon(r["c"]), canon(r["sched"])))
         if len(lst) > lim:
-            lst = rnd.sample(lst, lim)
+            keep = [r for r in lst if restart_only(r["c"]) and not any(x[2] for x in r["sched"])]
+            lst = rnd.sample(keep, min(len(keep), 6)) + rnd.sample(lst, lim)     # never without finished-run restarts
         for r in lst:
             sims.append((np_, nt, r))
 
@@ -394,6 +415,7 @@ def _run(ctx, exe, pool, quick, rnd):
     by = {}
     for (np_, nt, r), out in zip(sims, outs):
         ctx.traces += 1
+        guard["replay"] += restart_only(r["c"])
         ctx.nontriv(("replay", np_, nt, canon(r["c"]), canon(r["sched"])))
         meta = {"cfg": r["c"], "np": np_, "nt": nt, "schedule": r["sched"], "lockmode": "exclusive"}
         judge.hard(out, meta)
@@ -424,7 +446,11 @@ def _run(ctx, exe, pool, quick, rnd):
     for i in range(nrand):
         shape = rnd.choice([(2, 1), (2, 1), (2, 1), (3, 1), (2, 2)])
         maxcr = rnd.choice([0, 0, 1, 2])
-        items.append((shape[0], shape[1], random_cfg(rnd, 3 if shape != (2, 1) else 4), rnd.randrange(1 << 30), maxcr))
+        cfg = random_cfg(rnd, 3 if shape != (2, 1) else 4)
+        if i < 6:       # always some crash-free restarts of a finished run: stat, host, host, both
+            cfg = C(rnd.choice([DONE3, DONE2F]) if i % 4 == 0 else DONE3, cache=rnd.choice([1, 2]), **DONE_PATTERNS[i % 4])
+            maxcr = 0
+        items.append((shape[0], shape[1], cfg, rnd.randrange(1 << 30), maxcr))
 
     def rand_run(loader, base, item):
         np_, nt, cfg, seed, maxcr = item
@@ -434,6 +460,7 @@ def _run(ctx, exe, pool, quick, rnd):
     ncrash = nprobe = 0
     for (np_, nt, cfg, seed, maxcr), out in zip(items, outs):
         ctx.traces += 1
+        guard["random"] += restart_only(cfg) and out["final"]["crashes"] == 0
         sched = [[x["p"], x["t"], x["k"]] for x in out["trace"] if x["e"] == "step"]
         ctx.nontriv(("random", np_, nt, canon(cfg), canon(sched)))
         ncrash += sum(1 for x in sched if x[2] == 1)
@@ -496,7 +523,10 @@ def _run(ctx, exe, pool, quick, rnd):
         np_ = rnd.choice([2, 2, 3])
         n = rnd.randint(2, 8)
         cfg = rnd.choice([C([AV] * n, cache=rnd.choice([1, 2, 3]), maxjobs=rnd.choice([UNL, UNL, 2]), fail=[j for j in range(1, n + 1) if rnd.random() < 0.15]),
-                          C(OLD4 + [AV] * (n - 2), cache=rnd.choice([1, 2]), rstat=rnd.choice([[], ["FAILED"]]), rhost=rnd.choice([[], [8], [8, 9]]))])
+                          C(OLD4 + [AV] * (n - 2), cache=rnd.choice([1, 2]), rstat=rnd.choice([[], ["FAILED"]]), rhost=rnd.choice([[], [8], [8, 9]])),
+                          finished_cfg(rnd, extra=rnd.randint(0, 3))])
+        if i < 4:
+            cfg = C(DONE3 + [R("COMPLETE", 9, 9)] * rnd.randint(0, 3), cache=rnd.choice([1, 2]), **DONE_PATTERNS[i % 4])
         items.append((np_, cfg, rnd.randrange(1 << 30)))
 
     def free(loader, base, item):
@@ -505,6 +535,7 @@ def _run(ctx, exe, pool, quick, rnd):
     by = {}
     for (np_, cfg, seed), out in zip(items, outs):
         ctx.traces += 1
+        guard["free"] += restart_only(cfg)
         ctx.nontriv(("free", np_, canon(cfg), seed))
         meta = {"cfg": cfg, "np": np_, "nt": 2, "seed": seed, "mode": "free"}
         if out["bad"]:
@@ -527,6 +558,10 @@ def _run(ctx, exe, pool, quick, rnd):
             raise vlib.InfraError("FinalJobFile: %d states for %d records" % (r.distinct, len(lst)))
         os.unlink(path)
     ctx.extra["free_runs"] = nfree
+    ctx.extra["executions_from_finished_job_file_with_matching_restart_pattern"] = guard
+    if min(guard.values()) == 0:
+        raise vlib.InfraError("vacuity guard: no execution started from a job file without AVAILABLE jobs and with a matching "
+                              "restart pattern in %s" % [k for k, v in guard.items() if v == 0])
     ctx.extra["infrastructure_retries"] = pool.retries
     ctx.extra["observed_states_judged_by_predicates"] = judge.nobs
     vlib.log("phase 6 (%d free-running executions) done %.0fs" % (nfree, time.time() - T0))
